@@ -48,9 +48,26 @@ def drive(strategy, check, stats, *, seed, max_examples, known_sigs=(), shrink_b
         def test(case):
             if state['best'] is not None and time.time() - state['t0'] > shrink_budget_s:
                 return          # shrink budget used up: remaining shrink attempts "pass" without being executed
-            res = check(case)
+            import resource
+            rss0 = resource.getrusage(resource.RUSAGE_SELF).ru_maxrss
+            try:
+                res = check(case)
+            except MemoryError:
+                # a case that exhausts the worker's address-space limit (strings are uncapped - known finding D2b - so a
+                # program can double one at every recursion level) is inconclusive, never a verdict
+                import gc
+                gc.collect()
+                stats.inconclusive += 1
+                stats.add('discarded:memory')
+                return
             if res.discard:
                 stats.add('discarded')
+                return
+            if res.failures and resource.getrusage(resource.RUSAGE_SELF).ru_maxrss > max(rss0, 2 << 20):
+                # the case pushed the worker to a new memory peak above 2 GiB: a MemoryError may have been swallowed as an ordinary
+                # exception on one side only, so whatever it "found" is inconclusive
+                stats.inconclusive += 1
+                stats.add('discarded:memory')
                 return
             stats.case(key=res.key, nontrivial=res.nontrivial, classes=res.classes, sample=res.sample)
             new = None
